@@ -36,7 +36,8 @@ GrammarLaw == kase.kind = "roundtrip" => Balanced(Ser(X), <<>>)
 FiniteSet == kase.v % 2 = 0
 CompatLaw == kase.kind = "cross" =>
    LET T2 == TypeCat[kase.t2]  p == Parse(T2, Ser(X)) IN
-     /\ (p.ok <=> Compat(TypeOf(X), T2))
+     /\ (p.ok <=> CompatInst(X, T2))
+     /\ (Compat(TypeOf(X), T2) => p.ok)
      /\ (p.ok /\ (FiniteSet \/ TypeOf(X) = T2) => p.layers = Retype(X, T2))
 \* widening then narrowing a float file is the identity on bytes
 WidenBackLaw == (kase.kind = "cross" /\ Compat(TypeOf(X), TypeCat[kase.t2])) =>
@@ -50,7 +51,7 @@ EmitCases == TLCGet("stats").generated >= 0 /\
      SetToSeq({[kind |-> "instance", tid |-> iv[1], v |-> iv[2], layers |-> Inst(iv[1], iv[2]), stream |-> Ser(Inst(iv[1], iv[2]))]
                : iv \in Instances})
      \o SetToSeq({[kind |-> "cross", tid |-> c[1][1], v |-> c[1][2], t2 |-> c[2],
-                   ok |-> Compat(TypeCat[c[1][1]], TypeCat[c[2]]),
+                   ok |-> CompatInst(Inst(c[1][1], c[1][2]), TypeCat[c[2]]),
                    layers |-> IF Compat(TypeCat[c[1][1]], TypeCat[c[2]]) /\ (c[1][2] % 2 = 0 \/ c[1][1] = c[2])
                               THEN Retype(Inst(c[1][1], c[1][2]), TypeCat[c[2]]) ELSE <<>>,
                    exact |-> c[1][2] % 2 = 0 \/ c[1][1] = c[2]]
